@@ -45,6 +45,31 @@ Proof.
 Qed.
 Print Assumptions C01_parallel_dep_order.
 
+(* the same for the dependencies a task only acquires at run time: everything returned by its calc_dep
+   tasks (task_dep, producers of returned file_dep, further calc_dep -- transitively) [eff_dep] has
+   finished (indeed: was reported successful or up-to-date) before the task's actions start *)
+Theorem C01_serial_effective_dep_order :
+  forall tasks wake_rank calc_rank continue_ always fuel selection pre t post x,
+    fst (run_serial tasks wake_rank calc_rank continue_ always fuel selection) = pre ++ EExecute t :: post ->
+    eff_dep tasks t x -> finished_in pre x.
+Proof.
+  intros tasks wake_rank calc_rank continue_ always fuel selection pre t post x E Hx.
+  apply good_in_finished.
+  exact (cordered_split tasks _ (serial_contained tasks wake_rank calc_rank continue_ always fuel selection) pre t post E x Hx).
+Qed.
+Print Assumptions C01_serial_effective_dep_order.
+
+Theorem C01_parallel_effective_dep_order :
+  forall tasks wake_rank calc_rank continue_ always proc fuel nprocs sched selection pre t w post x,
+    fst (run_parallel tasks wake_rank calc_rank continue_ always proc fuel nprocs sched selection)
+      = pre ++ PStart t w :: post ->
+    eff_dep tasks t x -> pgood pre x.
+Proof.
+  intros tasks wake_rank calc_rank continue_ always proc fuel nprocs sched selection pre t w post x E Hx.
+  exact (pcordered_split tasks _ (parallel_contained tasks wake_rank calc_rank continue_ always proc fuel nprocs sched selection) pre t w post E x Hx).
+Qed.
+Print Assumptions C01_parallel_effective_dep_order.
+
 (* non-vacuity: a diamond with a setup-task and a calc_dep really executes, in dependency order *)
 Definition ex_tasks (n : name) : option task :=
   match n with
